@@ -285,5 +285,5 @@ func runRCInner(c *vt.C, s *RCScript, th Thr) (nontrivial bool, f *vt.Finding) {
 
 func TestRefCount(t *testing.T) {
 	shrinkBudget("10s") // a failing case costs milliseconds to seconds: bound the time rapid spends minimising
-	vt.Run(t, cRC, vt.N(700, 12000), genRC, runRC)
+	vt.Run(t, cRC, vt.N(700, 16000), genRC, runRC)
 }
